@@ -22,18 +22,17 @@ def stepped(rep, comp, step_module, trace_module, binary, sub, quick, seed, labe
     if not r.ok:
         rep.infra_error(step_module + " schedule generation failed: " + r.out[-1200:])
         return
-    scheds = replay.dedupe(r.tagged.get("BEH", []))
-    if quick:
-        random.Random(seed).shuffle(scheds)
-        scheds = scheds[:1200]
+    scheds = qcommon.pick(replay.dedupe(r.tagged.get("BEH", [])), quick, seed, short=4, rest=900)
     rs = tlc.run_tlc(comp, step_module, "Step_sim.cfg", workers=1, simulate=dict(num=150 if quick else 3000), depth=60,
                      seed=seed, timeout=900)
     if not rs.ok:
         rep.infra_error(step_module + " simulation failed: " + rs.out[-1200:])
         return
     scheds = replay.dedupe(scheds + rs.tagged.get("BEH", []))
+    scheds, procs = qcommon.with_procs(scheds)
+    rep.cov["burst_schedules"] = rep.cov.get("burst_schedules", 0) + sum(1 for b in scheds if qcommon.has_burst(b))
     hists = qcommon.run_schedules(rep, binary, sub, scheds, shards=12, label=label + "/sched", which=label,
-                                  env={"GOMAXPROCS": str(1 + seed % 4)})
+                                  env={"GOMAXPROCS": str(1 + seed % 4)}, procs=procs)
     trace.validate_all(rep, comp, trace_module, "LinTraceStrict.cfg", hists, label=label + "/step", shards=8,
                        key_fn=qcommon.lin_key(label))
     if hists:
@@ -81,7 +80,9 @@ def run(rep, tier, seed, replay_file=None):
         c07_deque.stepped(rep, tier, seed)
         for f in futs:
             f.result()
-    rep.cov["rule"] = ("driver schedules from QueueStep/DequeStep (edge cover + random), executed on the real container with every "
-                       "operation in its own goroutine and observation at quiescence; the recorded history is validated by the "
+    rep.cov["rule"] = ("driver schedules from QueueStep/DequeStep (edge cover + random; quick: all of <= 4 steps + a seeded sample), "
+                       "executed on the real container with every blocking operation in its own goroutine and observation at "
+                       "quiescence; BURST steps are issued without waiting for quiescence (several Adds / Add+Cancel / Remove+Close "
+                       "before a woken goroutine runs; run with GOMAXPROCS 1 and 4); the recorded history is validated by the "
                        "LinTrace spec with StrictQuiet (no enabled operation may be blocked at a quiescent point); non-trivial = "
                        "history longer than 4 events")
